@@ -416,4 +416,95 @@ theorem fieldVal_capsOf (ctx : Ctx) (hs : GoodTime ctx.s) (he : GoodTime ctx.e) 
     simp [hm, keyStr, (tstr_spec _ f hgt hf).2.2]
   · simp [hm]
 
+/-! ### Captured fields → datetime arguments -/
+
+/-- the `int(value)` dictionary of a set `P` of temporal placeholders written from `t` -/
+def rawOf (P : TField → Bool) (t : DateTime) : TField → Option Nat :=
+  fun f => if P f then some (tval t f) else none
+
+/-- the standardised datetime arguments -/
+def stdOf (P : TField → Bool) (t : DateTime) : Std :=
+  { year := if P .year2 || P .year then some t.y else none
+    month := if P .doy || P .month then some t.mo else none
+    day := if P .doy || P .day then some t.d else none
+    hour := if P .hour then some t.h else none
+    minute := if P .minute then some t.mi else none
+    second := if P .second then some t.s else none
+    micro := if P .millisecond then some (1000 * (t.us / 1000)) else none }
+
+/-- `t` cut to the resolution of the placeholders `P` -/
+def truncTo (P : TField → Bool) (t : DateTime) : DateTime :=
+  { y := t.y, mo := t.mo, d := t.d
+    h := if P .hour then t.h else 0
+    mi := if P .minute then t.mi else 0
+    s := if P .second then t.s else 0
+    us := if P .millisecond then 1000 * (t.us / 1000) else 0 }
+
+/-- no placeholder that `get_filename` cannot fill -/
+def NoSub (P : TField → Bool) : Prop :=
+  P .decisecond = false ∧ P .centisecond = false ∧ P .microsecond = false
+
+/-- the conditions under which the standardisation is the identity on the date -/
+def StdOK (P : TField → Bool) (t : DateTime) : Prop :=
+  NoSub P ∧ (P .year2 = true → 1965 ≤ t.y ∧ t.y ≤ 2064) ∧
+    (P .doy = true → P .year = true ∨ P .year2 = true)
+
+/-- `P` names a full date: year or year2, and month+day or doy -/
+def HasDate (P : TField → Bool) : Prop :=
+  (P .year = true ∨ P .year2 = true) ∧ ((P .month = true ∧ P .day = true) ∨ P .doy = true)
+
+theorem expandYear2_mod (y : Nat) (h1 : 1965 ≤ y) (h2 : y ≤ 2064) : expandYear2 (y % 100) = y := by
+  unfold expandYear2 year2Threshold; split <;> omega
+
+theorem standardise_rawOf (P : TField → Bool) (t : DateTime) (hv : Valid t) (hok : StdOK P t) :
+    standardise (rawOf P t) = .ok (stdOf P t) := by
+  obtain ⟨⟨n1, n2, n3⟩, hy2, hdoy⟩ := hok
+  have hvd := ((valid_iff t).1 hv).1
+  have hd := ofYearDoy_doyOf t.y t.mo t.d hvd
+  have hy : ¬(t.y < 1 ∨ 9999 < t.y) := by have := hvd.1; have := hvd.2.1; omega
+  unfold standardise rawOf stdOf
+  cases h1 : P .year2 <;> cases h2 : P .doy <;> cases h3 : P .year <;> cases h4 : P .millisecond <;>
+    simp only [h1, h2, h3, h4, n1, n2, n3, tval, hd, hy, Bool.false_eq_true, ↓reduceIte,
+      Option.isSome_none, Option.isSome_some, Bool.or_false, Bool.or_true, Bool.false_or,
+      Bool.true_or, Option.getD_none, Option.getD_some, Nat.mul_zero, Nat.add_zero, Nat.zero_add]
+  all_goals first
+    | rfl
+    | (simp only [expandYear2_mod _ (hy2 h1).1 (hy2 h1).2, hd, hy, ↓reduceIte]; done)
+    | (exfalso; simp [h1, h2, h3] at hdoy; done)
+
+theorem mkDate_stdOf (P : TField → Bool) (t : DateTime) (hv : Valid t) (hd : HasDate P) :
+    mkDate (stdOf P t) = .ok (truncTo P t) := by
+  have hvalid : valid (truncTo P t) = true := by
+    have h := (valid_iff t).1 hv
+    have : Valid (truncTo P t) := by
+      rw [valid_iff]
+      unfold truncTo
+      obtain ⟨h1, h2, h3, h4, h5⟩ := h
+      refine ⟨h1, ?_, ?_, ?_, ?_⟩
+      · simp only; split <;> omega
+      · simp only; split <;> omega
+      · simp only; split <;> omega
+      · simp only; split <;> omega
+    exact this
+  obtain ⟨hy, hmd⟩ := hd
+  have e1 : (P .year2 || P .year) = true := by rcases hy with h | h <;> simp [h]
+  have e2 : (P .doy || P .month) = true := by rcases hmd with ⟨h, _⟩ | h <;> simp [h]
+  have e3 : (P .doy || P .day) = true := by rcases hmd with ⟨_, h⟩ | h <;> simp [h]
+  unfold mkDate stdOf
+  simp only [e1, e2, e3, ↓reduceIte]
+  have : ({ y := t.y, mo := t.mo, d := t.d, h := (if P .hour = true then some t.h else none).getD 0,
+            mi := (if P .minute = true then some t.mi else none).getD 0,
+            s := (if P .second = true then some t.s else none).getD 0,
+            us := (if P .millisecond = true then some (1000 * (t.us / 1000)) else none).getD 0 } : DateTime)
+      = truncTo P t := by
+    unfold truncTo
+    cases P .hour <;> cases P .minute <;> cases P .second <;> cases P .millisecond <;> rfl
+  simp only [this, hvalid, ↓reduceIte]
+
+theorem stdOf_nonEmpty (P : TField → Bool) (t : DateTime) (hd : HasDate P) :
+    (stdOf P t).nonEmpty = true := by
+  obtain ⟨hy, _⟩ := hd
+  have e1 : (P .year2 || P .year) = true := by rcases hy with h | h <;> simp [h]
+  simp [Std.nonEmpty, stdOf, e1]
+
 end Template
